@@ -28,6 +28,7 @@ func main() {
 	pair := flag.Bool("pair", false, "pairs of consecutive loop iterations (debug dump)")
 	max := flag.Int("max", 50, "max paths to print (debug dump)")
 	list := flag.Bool("list", false, "list registered properties")
+	genShapes := flag.Bool("gen-shapes", false, "maintenance: print rules/known_shapes.go for the tree at -repo")
 	modOf := flag.String("mod", "", "debug: print the effect summary of a function")
 	startAt := flag.String("start", "", "debug dump: start the region after the first call whose callee name contains this string")
 	flag.Parse()
@@ -35,6 +36,15 @@ func main() {
 		for _, id := range rules.Props() {
 			fmt.Println(id)
 		}
+		return
+	}
+	if *genShapes {
+		p, err := core.Load(*repo, core.VDefault)
+		if err != nil {
+			fmt.Fprintln(os.Stderr, err)
+			os.Exit(2)
+		}
+		fmt.Print(rules.GenShapes(p))
 		return
 	}
 	if *modOf != "" {
